@@ -266,14 +266,16 @@ def riemann_states(draw, equal_gamma=None, allow_boost=True, min_pstar=1e-6):
     assume(w is not None)
     pat, ps, us, sp, rxl, rxr = w
     assume(ps < 8.0 * max(pl, pr))
-    assume(ps > min_pstar * min(pl, pr))
+    # (the general-EOS solver tabulates each rarefaction curve on a uniform pressure grid from p0 down to 0: a star
+    #  pressure far below the initial pressure falls between its first few samples, so it is only driven with p* >= 0.05 p0)
+    assume(ps > min_pstar * (min(pl, pr) if min_pstar < 1e-3 else max(pl, pr)))
     return dict(rl=rl, ul=ul, pl=pl, gl=gl, rr=rr, ur=ur, pr=pr, gr=gr), pat, ps, us, sp
 
 
 @st.composite
 def riemann_case(draw, solver='ig', equal_gamma=None, n_min=1, n_max=8, allow_boost=True):
     stt, pat, ps, us, sp = draw(riemann_states(equal_gamma=equal_gamma, allow_boost=allow_boost,
-                                                  min_pstar=1e-6 if solver == 'ig' else 2e-3))
+                                                  min_pstar=1e-6 if solver == 'ig' else 0.05))
     xd0 = draw(st.one_of(st.just(0.5), uni(-2.0, 2.0)))
     t = draw(logu(0.02, 2.0))
     span = max(abs(s) for s in sp) * t
@@ -378,6 +380,11 @@ def bbnoh_case(draw, n_min=1, n_max=6, kinds=('ideal_gas_eos', 'stiffened_gas_eo
     spec = draw(eos_spec(kinds))
     g = spec['args']['gamma']
     sym = draw(st.sampled_from([0, 1, 2]))
+    if spec['cls'] in ('noble_abel_eos', 'carnahan_starling_eos'):
+        # co-volume such that the (ideal-gas) shocked density stays well below the close-packing density 1/b,
+        # otherwise the ideal-gas state is not a physically reasonable starting guess
+        rho_ideal = ((g + 1) / (g - 1)) ** (sym + 1)
+        spec['args']['b'] = draw(logu(0.005, 0.25)) / rho_ideal
     wrapper = draw(st.booleans())
     if wrapper:
         path = BBNOH + ['Planar', 'Cylindrical', 'Spherical'][sym] + 'NohBlackBox'
